@@ -19,6 +19,8 @@ ASSUME = [
     "num_neg_rational only: `Ratio::new` skips the reduction (the operands are already in lowest terms with a positive denominator)",
     "feature set std,sync,biased,imbl,rooted-instructions (no jit2/dylibs); results are IntV/BigNum values that are mem::forgotten (drop glue is not the subject)",
     "Kani checks overflow as the dev/test profile does; release-profile wrap-around is covered by the value oracle",
+    "model (num_*_i_big only): num-bigint's long division is not executed; its four entry points (biguint::division::{div_rem, div_rem_ref, div_rem_digit, rem_digit}) are replaced by an exact model valid for dividend magnitude < 2 * divisor magnitude (quotient digit 0 or 1), the operand region of those harnesses; a cover witnesses that the division is reached",
+    "E3c (kinds:numeric-kernels): only explicit panic sites (panic!/unreachable!/todo!) of multiply_two / add_two / add_two_fallible / negate, operands restricted to the six number kinds; paths through branches other than kind / integer-payload tests are not interpreted",
 ]
 
 SYM2 = "x: isize (full width), y: isize (full width)"
@@ -36,6 +38,9 @@ def plan(tier):
         {"h": "num_int_float_equality", "sym": "i: isize, f: finite f64"},
         {"h": "num_arithmetic_shift_exact", "sym": "n: isize, m: isize (both full width)"},
         {"h": "num_expt_reciprocal", "sym": "(expt l -1), l: every non-zero integer with i32::MIN < l <= i32::MAX"},
+        {"h": "num_exact_of_integral_double", "sym": "(exact f), f: every finite integral f64"},
+        {"h": "num_magnitude_i", "sym": "x: isize"},
+        {"h": "num_truncate_quotient_i_big", "sym": "x: isize (full width), divisor 2^63 + off or -(2^63 + 1 + off), off: u16"},
     ]
     t = [
         {"h": "num_add_fallible_ii", "sym": SYM2},
@@ -56,6 +61,7 @@ def plan(tier):
         {"h": "num_euclidean_remainder_ii", "sym": "|x| <= 2^12, |y| <= 2^6 (all signs, zero divisor)"},
         {"h": "num_euclidean_remainder_edge", "sym": "x within 3 of isize::MIN/MAX, |y| <= 3"},
         {"h": "num_exact_integer_sqrt_small", "sym": "0 <= x < 2^12"},
+        {"h": "num_truncate_remainder_i_big", "sym": "x: isize (full width), divisor just beyond +-2^63"},
     ]
     # not covered (measured): full-width division (two divider circuits: > 2400 s each), (isize::MIN, -1) for
     # euclidean-remainder (num-bigint division is inline assembly), num_floor_remainder_i_big (real num-bigint division: solver out of memory),
@@ -65,9 +71,33 @@ def plan(tier):
 
 
 def check(pid, tier, seed):
-    return p_kani.check(pid, tier, seed, SPECS, plan(tier), FUNCS,
-                        {"operands": "full 64-bit unless stated per harness", "unwind": "4-6 (BigInt digit loops, <= 2 limbs)"},
-                        ASSUME, RULE, slots=3)
+    run = p_kani.check(pid, tier, seed, SPECS, plan(tier), FUNCS,
+                       {"operands": "full 64-bit unless stated per harness", "unwind": "4-6 (BigInt digit loops, <= 2 limbs)"},
+                       ASSUME, RULE, slots=5)
+    kernel_kinds(run)
+    return run
+
+
+def kernel_kinds(run):
+    """E3c restricted to the numeric kernels: every pair of number kinds is handled (no unreachable!())"""
+    import os, subprocess, time
+    import ws, p_bounds
+    from props import c07
+    try:
+        wsdir = ws.prepare("c10mir", [])
+        root = os.path.dirname(wsdir)
+        out = os.path.join(root, "steel_core.mir")
+        env = dict(os.environ, CARGO_NET_OFFLINE="true")
+        env.pop("RUSTFLAGS", None)
+        with open(out, "w") as f, open(os.path.join(root, "mir.err"), "w") as e:
+            subprocess.run(["cargo", "+nightly", "rustc", "--offline", "-p", "steel-core", "--lib", "--no-default-features",
+                            "--features", ws.FEATURES, "--target-dir", os.path.join(root, "tmir"), "--",
+                            "-Zunpretty=mir", "-C", "debug-assertions=off"], cwd=wsdir, stdout=f, stderr=e, env=env)
+        run._mir = dict(wsdir=wsdir, root=root, out=out, reg=p_bounds.registered(os.path.join(wsdir, "crates", "steel-core", "src")), env=env)
+    except Exception as ex:
+        run.ob("kinds:numeric-kernels", "inconclusive", reason=str(ex)[-300:], engine="mir-smt")
+        return
+    c07.kinds_obligations(run, only_kernels=True)
 
 
 def replay(pid, path):
